@@ -597,10 +597,13 @@ def run_one(ctx, h, known_keys, replay_root):
         if h.witness == "twin":
             gbw, _ = build_harness(ctx, h, extra_defines=excl + ["WITNESS_ONLY"])
             # find witness property id
-            hw = h
+            import copy as _copy
+            hw = _copy.copy(h)
+            hw.checks = "assert"
+            hw.solver = "default"
             cmdw = cbmc_cmd(hw, gbw)
-            # only the witness: cheap because any path suffices
-            rc2, out2, err2, *_rest = sh(cmdw + ["--stop-on-fail"], timeout=h.timeout, mem_gb=MEM_LIMIT_GB)
+            # only the witness assertion is compiled in: any path to the end of the harness satisfies the query
+            rc2, out2, err2, *_rest = sh(cmdw, timeout=h.timeout, mem_gb=MEM_LIMIT_GB)
             r.queries += 1
             try:
                 d2 = json.loads(out2)
